@@ -1022,6 +1022,62 @@ func r6ListStoredAsGiven(w *World, r *Report, rule, ctor, elem, typ, field, what
 				}
 			}
 			return true
+		case *ssa.Call:
+			// a helper of the module that hands back the list it is given, or an empty one (nil → empty)
+			h := x.Call.StaticCallee()
+			if h == nil || h.Blocks == nil || !strings.HasPrefix(pkgPathOf(h), modPath) || d > 2 {
+				return false
+			}
+			var hp *ssa.Parameter
+			for i, a := range x.Call.Args {
+				if asGiven(a, d+1) {
+					if _, isParamOrPhi := a.(*ssa.Parameter); isParamOrPhi && i < len(h.Params) {
+						hp = h.Params[i]
+					}
+				}
+			}
+			if hp == nil {
+				return false
+			}
+			n := 0
+			for _, hb := range h.Blocks {
+				ret, ok := hb.Instrs[len(hb.Instrs)-1].(*ssa.Return)
+				if !ok || len(ret.Results) != 1 {
+					continue
+				}
+				n++
+				var ok2 func(v ssa.Value, dd int) bool
+				ok2 = func(v ssa.Value, dd int) bool {
+					switch y := v.(type) {
+					case *ssa.Parameter:
+						return y == hp
+					case *ssa.MakeSlice:
+						k, ok := intConstOf(y.Len)
+						return ok && k == 0
+					case *ssa.Slice:
+						if a, ok := y.X.(*ssa.Alloc); ok {
+							if arr, ok := a.Type().Underlying().(*types.Pointer).Elem().Underlying().(*types.Array); ok && arr.Len() == 0 {
+								return true
+							}
+						}
+					case *ssa.Phi:
+						if dd > 3 {
+							return false
+						}
+						for _, e := range y.Edges {
+							if !ok2(e, dd+1) {
+								return false
+							}
+						}
+						return true
+					}
+					return false
+				}
+				if !ok2(ret.Results[0], 0) {
+					return false
+				}
+			}
+			return n > 0
 		}
 		return false
 	}
